@@ -425,6 +425,8 @@ recorded call of the real function is checked against that contract.  PARTIAL: t
 library code (AEON xie_beerel); it is judged through check_seeds / check_sets against the brute-force
 attractors, which makes it agree with the default method.""",
  theorems=[("source_compute_attractors_symbolic", "py_compute_attractors_symbolic_spec", "translator tie for the candidate filter: the function GENERATED from the current text of attractor_symbolic.compute_attractors_symbolic (loop translated statement by statement, preamble / postamble compared with reference texts) is the model's compute_attractors_filter: seeds and sets are produced together, in candidate order"),
+           ("source_text_filter_exact", "py_compute_attractors_symbolic_exact", "C12 / C01 for the SOURCE TEXT of the filter: given covering, duplicate-free candidates inside the node, the seeds returned by the generated compute_attractors_symbolic are one-to-one with the node's own attractors and the i-th set is exactly the reachable set (= the attractor) of the i-th seed"),
+           ("source_text_filter_seeds_only", "py_compute_attractors_symbolic_seeds_only", "... and with seeds_only=True (the unchecked-last-candidate shortcut included) the seeds are still one-to-one"),
            ("check_sets_ok", "check_sets_ok", None), ("filter_exact", "filter_exact", "sets are, in seed order, the reachable sets of the seeds = their attractors"),
            ("reach_list_sound", "reach_list_sound", None), ("reach_list_complete", "reach_list_complete", None),
            ("attractor_is_class", "attractor_is_class", "an attractor is the reachable set of any of its states"),
